@@ -85,7 +85,9 @@ def check(ctx):
 
     def clone_links(o):
         from .clone_common import clone_provenance
-        clone_provenance(ctx, o)
+        # the shared clone rule reports every unfaithfulness of the copy; C02 only depends on the links and the hierarchy of
+        # the copy, not on the order of siblings
+        clone_provenance(ctx, _Only(o, drop=("the order of siblings",)))
     ctx.guarded(o, clone_links)
 
     o = ctx.ob('clone_keeps_min_start_and_dates', 'R9',
@@ -94,7 +96,9 @@ def check(ctx):
 
     def faithful(o):
         from .clone_common import clone_provenance
-        clone_provenance(ctx, o, ('fields',))
+        # C02's bounds read min_start and the fixed dates of the copy: lost estimate / spent values are C04's and C10's matter,
+        # a deep copy of a date is an equal date
+        clone_provenance(ctx, _Only(o, drop=("__estimate", "__spent", "deepcopy()")), ('fields',))
     ctx.guarded(o, faithful)
 
     # the schedulers start their search at IResource.get_nearest_availability_date: its shape is C17's obligation, reused here
